@@ -387,7 +387,8 @@ type rsCallSt struct {
 	respPos   int
 	firedO    bool
 	firedD    bool
-	suspect   bool
+	suspect   bool // a callback after End can be the known finding (C09)
+	suspect10 bool // a goroutine held a looked-up originating item inside Receive while another one ran (C10)
 	started   bool
 	frag      bool
 }
@@ -581,6 +582,9 @@ func (w *rsWorld) markSuspects(call int, self string) {
 			for _, c := range w.calls {
 				if c.idx == call {
 					c.suspect = true
+					if t.point == "relay.Receive.afterGet" {
+						c.suspect10 = true
+					}
 				}
 			}
 		}
@@ -1069,7 +1073,7 @@ func (w *rsWorld) oracleC10(frames []rsFrame) string {
 			continue
 		}
 		msg := fmt.Sprintf("id %d: caller-side frames %s: %s", id, rsWireString(seq), bad)
-		if c.suspect {
+		if c.suspect10 {
 			return "[relay:response-frame-after-timeout-error] " + msg
 		}
 		return msg
